@@ -320,6 +320,12 @@ func (rn *runner) replayOne(b Behaviour, idx int) {
 			res.AddExtra("observation:panic:"+in.Variant+":"+cs, 1)
 		}
 		abandon := false
+		if st.Act == "ProcessDeal" && got.Ret != st.Ret {
+			// an allowed answer other than the predicted one: the rest of the behaviour describes another branch
+			res.AddExtra("drift:outcome:"+in.Variant+":"+cs+":"+got.Ret, 1)
+			res.AddExtra("abandoned-on-allowed-alternative", 1)
+			return
+		}
 		// 2. response table
 		if tb := tableOf(got, in.N); tb != nil {
 			keys := make([]string, 0, len(tb))
